@@ -41,7 +41,8 @@ fn install_hook() {
     HOOK.call_once(|| {
         let default = std::panic::take_hook();
         std::panic::set_hook(Box::new(move |info| {
-            let captured = CAPTURE.with(|c| {
+            let no_capture = std::env::var("WTSIM_NO_CAPTURE").is_ok();
+            let captured = !no_capture && CAPTURE.with(|c| {
                 if let Some(v) = c.borrow_mut().as_mut() {
                     let loc = info
                         .location()
